@@ -93,4 +93,36 @@ CLAIMS['C13'] = {
     'technique': 'space-kind and axis-order abstract interpretation; structural container-normalisation check',
 }
 
+CLAIMS['C05'] = {
+    'text': 'Decides every mechanism clause for all inputs: select_univariate is an arg-min over element 0 of kstest(X, instance.cdf) '
+            'of the instance created and fitted on the same X in that iteration (initial +inf, guarded paired update, strict <), '
+            'failures are enclosed and skipped (try catches Exception, handler continues), candidates are enumerated by recursing over '
+            'subclasses with the ABC skip and both filters and every concrete family declares its tags, explicit candidate lists '
+            'win, each column is fitted with the distribution looked up under its own name with the default for unnamed columns, '
+            'the fallback is a GaussianUnivariate fitted on the same column and returned, and get_instance always constructs a new '
+            'object from recorded arguments. Which family wins on given data is a runtime value.',
+    'note': NOTE,
+    'technique': 'idiom matchers (arg-extremum with polarity, exception envelope, index agreement) over the syntax tree and call graph',
+}
+CLAIMS['C10'] = {
+    'text': 'PARTIAL: decides by dominators/post-dominators that every normal exit of Bivariate.fit passed split_matrix, the range '
+            'check of both columns, tau = kendalltau(U,V)[0], the NaN refusal (all sub-paths raise ValueError) and '
+            '_compute_theta in this order; that check_marginal refuses exactly min<0 or max>1; that theta is validated after '
+            'assignment and check_theta refuses values outside the closed interval or in invalid_thetas; that the admissible sets '
+            'equal the families\' mathematical domains; who may write theta/tau; and the rank-0 contract of the Frank '
+            'calibration (the rule that exposed the fixed defect F17). Correctness of the tau->theta inversions is numeric and '
+            'not decided.',
+    'note': NOTE,
+    'technique': 'CFG dominance/post-dominance, guard normal forms, who-may-write, rank-kind abstract interpretation',
+}
+CLAIMS['C11'] = {
+    'text': 'PARTIAL: decides the typestate of every candidate (fitted Frank; fresh Clayton and Gumbel with tau := frank.tau then '
+            '_compute_theta() before append, inside a ValueError envelope), that the tau <= 0 guard returns the fitted Frank '
+            'before any candidate is built, that curves/distances/scores stay co-ordered with the candidate list and the '
+            'arg-extremum indexes that list, the polarity chain distance -> rank(ascending=False) -> sum -> argmax, that no '
+            'entropy source is reachable, and the deprecated forwarder. Recovery rates are statistical and not decided.',
+    'note': NOTE,
+    'technique': 'typestate over statement order, score/polarity abstract interpretation, RNG effect closure',
+}
+
 NOT_APPLICABLE = {}
